@@ -105,7 +105,9 @@ pub fn key_families() -> Vec<(&'static str, Vec<KeyDef>)> {
         // -0.0 and 0.0 are one key: the language's equality says they are equal
         ("real", fam("real", &["1.0", "2.5", "0.0", "-0.0", "1.0e300", "-1.5"], 1, &[(3, 2)])),
         ("str", fam("str", &["\"a\"", "\"1\"", "\"\"", "\"ab\"", "\"A\""], 0, &[])),
-        ("bitstr", fam("bitstr", &["|01|", "|x|", "|.|", "|0100|", "|x.|"], 1, &[])),
+        // the last four are one key: the same four bits as a literal, as byte-aligned slices of buffers that
+        // differ after the end of the value, and as an unaligned slice
+        ("bitstr", fam("bitstr", &["|01|", "|x|", "|.|", "|0100|", "|x.|", "|xxxx|", "|f0| open-bitstr 4 bits", "|ff| open-bitstr 4 bits", "|0f| open-bitstr 4 bits drop 4 bits"], 1, &[(6, 5), (7, 5), (8, 5)])),
         ("vec", fam("vec", &["[ ]", "[ 1 ]", "[ 2 ]", "[ 1 2 ]", "[ 1 1 ]"], 1, &[])),
         ("map", fam("map", &["{ }", "{ 10 1 }", "{ 11 1 }", "{ 10 2 }", "{ 10 1 10 2 }"], 0, &[])),
     ]
@@ -896,6 +898,31 @@ fn explore_literals(cfg: &Cfg, rep: &Reporter, label: &str, kdefs: &[KeyDef], ma
                     rep.report_w(&key, weight, || case);
                     continue;
                 }
+                // the same literal written in another position denotes the same map: inside a meta
+                // block, inside a definition, as a vector element — each over values that an earlier
+                // source left on the stack, which must stay as they were
+                for (pname, pre, suf) in [("meta-block", "#( ", " #)"), ("definition", ": lit12 ", " ; lit12"), ("vector-element", "[ ", " ] 0 get"), ("meta-block-in-definition", ": lit12 #( ", " #) ; lit12")] {
+                    if pname.starts_with("meta") && src.contains("open-bitstr") {
+                        continue; // a meta block works with constants only: no parsing words in it
+                    }
+                    let mut ys = base.clone();
+                    let _ = ev(&mut ys, "100 200");
+                    let psrc = format!("{}{}{}", pre, src, suf);
+                    st.evals += 1;
+                    let r = ev(&mut ys, &psrc);
+                    let got = take_stack(&mut ys);
+                    let ok = matches!(r, Ok(Ok(()))) && got.len() == 3 && render(&got[0]) == "i:100" && render(&got[1]) == "i:200" && render(&got[2]) == render(&stack[0]);
+                    if !ok {
+                        rep.report_w(&format!("map-literal-position:{}", pname), weight, || {
+                            jo(vec![
+                                ("kind", js("map-literal-position")),
+                                ("sources_in_order", J::A(vec![js("100 200"), js(psrc.clone())])),
+                                ("expected_stack", js(format!("[i:100, i:200, {}]", render(&stack[0])))),
+                                ("observed", js(format!("{:?} stack {:?}", r.as_ref().map(|r| res_kind(r)), got.iter().map(render).collect::<Vec<_>>()))),
+                            ])
+                        });
+                    }
+                }
                 let e0 = ob.evals;
                 // a literal with colliding keys is a path with a collision on it: the tree may be out of order
                 let v = judge(&mut ob, &al, kdefs, &stack[0], &expected, &alt, cross_now, cross_now.is_some());
@@ -945,7 +972,7 @@ fn check_equality(rep: &Reporter, ev_: &mut Evidence, kdefs: &[KeyDef]) {
     }
     ev_.evaluations += n;
     ev_.traces += n;
-    ev_.add("equal_pairs_checked", ji(n));
+    ev_.add(&format!("equal_pairs_checked_{}", kdefs.iter().map(|k| k.ty).collect::<std::collections::BTreeSet<_>>().into_iter().collect::<Vec<_>>().join("+")), ji(n));
 }
 
 // ------------------------------------------------------------------ part C: sequences
@@ -1578,6 +1605,11 @@ pub fn run(cfg: &Cfg) -> i32 {
     let t0 = std::time::Instant::now();
     if want("equal") {
         check_equality(&rep, &mut ev_, &kdefs);
+        // ... and inside every single-type family (more members per type, incl. slices that hold
+        // the same bits in differently filled buffers)
+        for (_, fk) in key_families() {
+            check_equality(&rep, &mut ev_, &fk);
+        }
     }
     if want("bfs") || want("literals") || want("maps") {
         // (1) one exploration per single-type key family: no cross-type collision can occur inside a family,
